@@ -32,8 +32,8 @@ type Summ struct {
 	P                *Prog
 	Target           FnPred
 	SiteTarget       func(ssa.CallInstruction) bool // optional: a call site that is the event itself
-	AllowEmptyGuards bool // tolerate nil/empty guards on the operands of the required call
-	LoopsRunOnce     bool // a for-each loop whose body must trigger the event counts as triggering it
+	AllowEmptyGuards bool                           // tolerate nil/empty guards on the operands of the required call
+	LoopsRunOnce     bool                           // a for-each loop whose body must trigger the event counts as triggering it
 	MaxDepth         int
 	mustMemo         map[funcCtx]int // 1 in progress, 2 true, 3 false
 	canReach         map[*ssa.Function]bool
